@@ -6,6 +6,7 @@
 #   - every behaviour-preserving patch in benign/ and benign2/ (each must be SILENT for this property).
 # Uses its own scratch worktree of /repo under /tmp and removes it afterwards.
 set -u
+export GOMAXPROCS=${GOMAXPROCS:-4}   # many harnesses run side by side
 prop=$1
 V=${VERIF_HOME:-$(cd "$(dirname "$0")/.." && pwd)}
 lc=$(echo $prop | tr A-Z a-z)
